@@ -2149,7 +2149,11 @@ def new_constants(program, table):
 
 def inline_new_constants(func, gl, ca):
     """Replace reads of such names in func by the literal."""
-    mg = gl.get(func.module.name, {})
+    mg = dict(gl.get(func.module.name, {}))
+    # ... and the ones another module of the package defines and this module imports by name (`from .utilities import CRLF`)
+    for local, imp in func.module.imports.items():
+        if imp[0] == "sym" and local not in mg and imp[2] in gl.get(imp[1], {}) and local not in func.module.globals:
+            mg[local] = gl[imp[1]][imp[2]]
     owner = func
     while owner.parent is not None:
         owner = owner.parent
@@ -2179,7 +2183,16 @@ def inline_new_constants(func, gl, ca):
                 new = _copy(mg[n.id])
                 for y in ast.walk(new):
                     ast.copy_location(y, n)
+                new._from_name = True
                 return new
+            return n
+
+        def visit_Call(self, n):
+            self.generic_visit(n)
+            # len(<the literal just substituted>) is the number the reference tree writes
+            if isinstance(n.func, ast.Name) and n.func.id == "len" and "len" not in bound and len(n.args) == 1 and not n.keywords \
+                    and isinstance(n.args[0], ast.Constant) and isinstance(n.args[0].value, (bytes, str)) and getattr(n.args[0], "_from_name", False):
+                return ast.copy_location(ast.Constant(value=len(n.args[0].value)), n)
             return n
 
         def visit_Attribute(self, n):
@@ -2731,6 +2744,80 @@ def split_tuple_assignments(func):
     return nf
 
 
+def unroll_literal_loops(func):
+    """`for a, b in ((x1, y1), (x2, y2)): BODY` over a literal tuple / list of at most four rows whose entries are plain
+    names or constants -> BODY[x1, y1]; BODY[x2, y2].  Exact when BODY holds no break / continue of this loop, binds none
+    of the loop variables nor of the names in the rows, the loop has no else and the loop variables are read nowhere
+    else in the function (a table-driven spelling of a sequence of checks)."""
+    def rows(st):
+        if not (isinstance(st, ast.For) and not st.orelse and isinstance(st.iter, (ast.Tuple, ast.List)) and 1 <= len(st.iter.elts) <= 4):
+            return None
+        if isinstance(st.target, ast.Name):
+            tv = [st.target.id]
+        elif isinstance(st.target, ast.Tuple) and all(isinstance(t, ast.Name) for t in st.target.elts):
+            tv = [t.id for t in st.target.elts]
+        else:
+            return None
+        out = []
+        for r in st.iter.elts:
+            cells = [r] if isinstance(st.target, ast.Name) else (list(r.elts) if isinstance(r, (ast.Tuple, ast.List)) else None)
+            if cells is None or len(cells) != len(tv) or not all(isinstance(c, (ast.Name, ast.Constant)) for c in cells):
+                return None
+            out.append(cells)
+        body_nodes = [n for b in st.body for n in ast.walk(b)]
+        if any(isinstance(n, (ast.Break, ast.Continue, ast.FunctionDef, ast.AsyncFunctionDef, ast.Lambda, ast.ClassDef, ast.Yield, ast.YieldFrom)) for n in body_nodes):
+            return None
+        stored = {n.id for n in body_nodes if isinstance(n, ast.Name) and isinstance(n.ctx, (ast.Store, ast.Del))}
+        used = {c.id for r in out for c in r if isinstance(c, ast.Name)}
+        if stored & (set(tv) | used) or len(set(tv)) != len(tv):
+            return None
+        return tv, out
+
+    cands = [x for x in walk_own(func.node) if rows(x)]
+    if not cands:
+        return func
+    # the loop variables are read nowhere outside their loop
+    for st in cands:
+        tv, _ = rows(st)
+        for v in tv:
+            inside = {id(n) for c in cands if v in rows(c)[0] for n in ast.walk(c)}  # every such loop binds it afresh
+            if any(isinstance(n, ast.Name) and n.id == v and id(n) not in inside for n in ast.walk(func.node)):
+                return func
+    node = _copy(func.node)
+
+    def block(body):
+        out = []
+        for st in body:
+            for fld in ("body", "orelse", "finalbody"):
+                sub = getattr(st, fld, None)
+                if isinstance(sub, list) and sub and isinstance(sub[0], ast.stmt) and not isinstance(st, (ast.FunctionDef, ast.AsyncFunctionDef, ast.ClassDef)):
+                    setattr(st, fld, block(sub))
+            if isinstance(st, ast.Try):
+                for h in st.handlers:
+                    h.body = block(h.body)
+            r = rows(st)
+            if r is None:
+                out.append(st)
+                continue
+            tv, rws = r
+            for cells in rws:
+                env = dict(zip(tv, cells))
+
+                class S(ast.NodeTransformer):
+                    def visit_Name(self, n):
+                        if isinstance(n.ctx, ast.Load) and n.id in env:
+                            return ast.copy_location(_copy(env[n.id]), n)
+                        return n
+                for b in st.body:
+                    out.append(S().visit(_copy(b)))
+        return out
+    node.body = block(node.body)
+    ast.fix_missing_locations(node)
+    nf = Func(func.qual, node, func.module, func.cls, func.parent)
+    nf.inlined_from = list(getattr(func, "inlined_from", []))
+    return nf
+
+
 def comprehensions_from_append_loops(func, keep_names=()):
     """`acc = []` immediately followed by `for x in XS: acc.append(E)` (optionally under one `if C:`), where neither acc
     nor the reference tree's names are involved otherwise: `acc = [E for x in XS if C]`.  Exact when the loop variable is
@@ -3033,6 +3120,43 @@ def flags_to_breaks(func):
     nf = Func(func.qual, node, func.module, func.cls, func.parent)
     nf.inlined_from = list(getattr(func, "inlined_from", []))
     return nf
+
+
+def _boolean_ifexp_in_tests(node):
+    """In test position (`if` / `while` / the operand of `not`, `and`, `or` there) a conditional expression with a constant
+    truth value in one arm is the connective it spells: `False if C else X` -> `not C and X`, `True if C else X` ->
+    `C or X`, `X if C else False` -> `C and X`, `X if C else True` -> `not C or X`.  Same sub-expressions, same order of
+    evaluation, same truth value (only the truth value is used in a test).  Left behind by ladder helpers expanded as
+    expressions (`if a: return False; return b`)."""
+    def cb(e):
+        return e.value if isinstance(e, ast.Constant) and isinstance(e.value, bool) else None
+
+    def neg(e):
+        return ast.copy_location(ast.UnaryOp(op=ast.Not(), operand=e), e)
+
+    def conv(t):
+        if isinstance(t, ast.UnaryOp) and isinstance(t.op, ast.Not):
+            t.operand = conv(t.operand)
+            return t
+        if isinstance(t, ast.BoolOp):
+            t.values = [conv(v) for v in t.values]
+            return t
+        if isinstance(t, ast.IfExp):
+            b, o = cb(t.body), cb(t.orelse)
+            c = conv(t.test)
+            if b is False and o is None:
+                return ast.copy_location(ast.BoolOp(op=ast.And(), values=[neg(c), conv(t.orelse)]), t)
+            if b is True and o is None:
+                return ast.copy_location(ast.BoolOp(op=ast.Or(), values=[c, conv(t.orelse)]), t)
+            if o is False and b is None:
+                return ast.copy_location(ast.BoolOp(op=ast.And(), values=[c, conv(t.body)]), t)
+            if o is True and b is None:
+                return ast.copy_location(ast.BoolOp(op=ast.Or(), values=[neg(c), conv(t.body)]), t)
+        return t
+    for n in ast.walk(node):
+        if isinstance(n, (ast.If, ast.While)):
+            n.test = conv(n.test)
+    return node
 
 
 def _fold_constant_tests(node):
